@@ -17,7 +17,7 @@ for r in rows:
 
 revert_props = {"R19-window-shift": ("C03", "db3004f"), "R11-hit-no-pv": ("C11", "42686ba"), "R12-inexact-stored-exact": ("C11", "db2c048"),
                 "R13-stores-while-unwinding": ("C12", "431d885"), "R10-drawn-root-no-pv": ("C04", "208a1c0")}
-for d in sorted(glob.glob(os.path.join(ROOT, "seeded", "*"))):
+for d in sorted(x for x in glob.glob(os.path.join(ROOT, "seeded", "*")) if os.path.isdir(x)):
     name = os.path.basename(d)
     notes = ""
     np = os.path.join(d, "NOTES.md")
